@@ -324,6 +324,10 @@ def build_config(spec):
         cfg['infty_val'] = spec['infty_val']
     if spec.get('instructor_vars'):
         cfg['instructor_vars'] = list(spec['instructor_vars'])
+    if spec.get('numbered'):
+        cfg['numbered_vars'] = sorted(spec['numbered'])
+        for k, vals in spec['numbered'].items():
+            cfg['sample_from'][k] = Scripted(values=[decode_val(v) for v in vals])
     if spec.get('user_f'):
         cfg['user_functions'] = {'f': _user_f}
         if spec['user_f'] == 'with-random':
@@ -1036,9 +1040,12 @@ def items_errors(tier):
                 count += 1
                 yield {'author': ai, 'fault': 'blank', 'field': field, 'text': '', 'pos': _rot(sub, count)}
         # instructor-only variables
-        for ivars in (['c'], ['c', 'pi'], ['c', 'nothere']):
+        # (['a_{1}']: an INSTANCE of the numbered variable a - such names exist only once a submission mentions them)
+        for ivars in (['c'], ['c', 'pi'], ['c', 'nothere'], ['a_{1}'], ['a_{1}', 'pi']):
             for field, text in (('lower', None), ('upper', None), ('summand', None), ('summand', 'pi'),
                                 ('summation_variable', 'c'), ('control', None), ('control-wrong', None)):
+                if field == 'summation_variable' and ivars[0] != 'c':
+                    continue
                 for sub in SUBSETS:
                     if field in FIELDS and field not in sub:
                         continue
@@ -1100,15 +1107,19 @@ def judge_errors(spec, rec):
         else:
             s['lo' if field == 'lower' else 'hi'] = [None, '']
     elif fault == 'instructor':
-        full['vars']['c'] = [2.5, 2.5]
+        nm = spec['ivars'][0]
+        if nm == 'c':
+            full['vars']['c'] = [2.5, 2.5]
+        else:
+            full['numbered'] = {'a': [2.5, 2.5]}
         full['instructor_vars'] = spec['ivars']
-        a['tree'] = ['*', V('c'), a['tree']]
+        a['tree'] = ['*', V(nm), a['tree']]
         s['tree'] = ['*', C(2.5), s['tree']]          # what a student can write: the value of c
         label = 'instructor-var'
         if field == 'lower':
-            s['lo'] = [None, '%s+c-c' % s['lo'][1]]
+            s['lo'] = [None, '%s+%s-%s' % (s['lo'][1], nm, nm)]
         elif field == 'upper':
-            s['hi'] = [None, 'c*(%s)/c' % s['hi'][1]]
+            s['hi'] = [None, '%s*(%s)/%s' % (nm, s['hi'][1], nm)]
         elif field == 'summand' and text is None:
             s['tree'] = a['tree']
         elif field == 'summand':
